@@ -2,6 +2,10 @@
 use crate::common::*;
 use crate::framing::*;
 
+// audit aC07: body flavours (hints, segmented DATA, boxed errors) and message()/trailers() consumers
+#[path = "c07_x.rs"]
+mod x;
+
 pub fn generate(tier: &str, rng: &mut Rng) -> Vec<String> {
     let thorough = tier == "thorough";
     let mut out = Vec::new();
@@ -156,9 +160,13 @@ pub fn generate(tier: &str, rng: &mut Rng) -> Vec<String> {
             }
         }
     }
+    out.extend(x::generate(tier, rng));
     out
 }
 
 pub fn execute(case: &str) -> String {
+    if case.starts_with("xdec ") {
+        return x::execute(case);
+    }
     crate::framing::execute(case)
 }
